@@ -126,6 +126,11 @@ func runC19(c *Ctx) {
 	c.Rule("R19f", "exclusion side effects only for matching resources: in the filter callbacks of excludeT/excludeV a write to a captured collection (the sets of indexes / foreign keys to drop with an excluded column) is reachable only through an edge that establishes the pattern matched", 1)
 	checkFilterCallbacks(c)
 
+	c.Rule("R19h", ruleTextExcludeScope, 1)
+	checkExcludeScope(c, "R19h")
+	c.Rule("R19i", ruleTextSkipAccumulates, 1)
+	checkSkipAccumulates(c, "R19i")
+
 	// ---- R19g
 	c.Rule("R19g", "a planner executes only the changes it was given: the modifyTable method of each dialect builds its statements from ModifyTable.Changes and never re-creates the table from ModifyTable.T (the desired table still contains the effect of every skipped change, so a CREATE TABLE made from it carries the skipped drops out)", 3)
 	checkNoRebuildFromDesired(c)
